@@ -422,7 +422,7 @@ theorem step_new (run : ProbeRunner) {s : St} {fl : List Nat} (H : HInv s fl)
       (fun _ => by simp only [specStep, if_neg hn])
   have hok : NewOK s.ss ids rels := ⟨hnd, hreg, ⟨hrnd, hrin, hrall⟩, hv⟩
   obtain ⟨e, w', hop⟩ := opNewEntity_rel_total run p H.tinv H.unlocked H.noObs (vals := vals) hnd hreg'
-    hin hrc (fun c hc hr => hrall c hc (by rw [H.rget]; exact hr)) (H.targets_alive hv)
+    hrnd hin hrc (fun c hc hr => hrall c hc (by rw [H.rget]; exact hr)) (H.targets_alive hv)
   have post := opNewEntity_rel_spec run p H.tinv H.unlocked H.noObs hreg' hrnd hin hrc hfew hent hop
   have more := opNewEntity_rel_more run p H.tinv H.unlocked H.noObs hreg' hrnd hin hfew hent hop
   have he : e = (s.w.pool.get).2 := post.ent
@@ -561,7 +561,7 @@ theorem step_add (run : ProbeRunner) {s : St} {fl : List Nat} (H : HInv s fl)
       | false => rfl
       | true => exact absurd ((hmask c).mp hgc) (hall c hc).2
     obtain ⟨w', hop⟩ := opAdd_rel_total run p H.tinv H.unlocked H.noObs h2 hnf ha (vals := vals)
-      hne hnd hreg' hnew hin hrc (fun c hc hr => hrall c hc (by rw [H.rget]; exact hr))
+      hne hnd hreg' hnew hrnd hin hrc (fun c hc hr => hrall c hc (by rw [H.rget]; exact hr))
       (H.targets_alive hv)
     have post := opAdd_rel_spec run p H.tinv H.unlocked H.noObs h2 hnf ha hreg' hrnd hin hrc hfew
       hent hop
@@ -755,9 +755,9 @@ theorem step_setrel (run : ProbeRunner) {s : St} {fl : List Nat} (H : HInv s fl)
     (p : Path) (e : Ent) (rels : Rels) : StepGoal run s (.setrel p e rels) := by
   by_cases hg : guard s (.setrel p e rels) = true
   case neg => exact stepGoal_no_guard H hg
-  have hg' : (e ∈ s.issued ∧ (rels.map (·.comp)).Nodup) ∧ tgtsExpr s rels = true := by
+  have hg' : e ∈ s.issued ∧ tgtsExpr s rels = true := by
     simpa only [guard, Bool.and_eq_true, decide_eq_true_eq] using hg
-  obtain ⟨⟨hi, hrnd⟩, hx⟩ := hg'
+  obtain ⟨hi, hx⟩ := hg'
   cases ha : s.w.alive e with
   | false =>
     obtain ⟨k, hop⟩ := opSetRelations_panic run p e (rels.map (·.comp)) rels s.w
@@ -790,6 +790,12 @@ theorem step_setrel (run : ProbeRunner) {s : St} {fl : List Nat} (H : HInv s fl)
       cases rels with
       | nil => exact absurd rfl hne
       | cons _ _ => rfl
+    by_cases hrnd : (rels.map (·.comp)).Nodup
+    case neg =>
+      -- a relation component named twice: refused since the repair of D19
+      obtain ⟨k, hcore⟩ := setRelationsCore_not_nodup run e rels s.w H.unlocked ha hemp hrnd
+      obtain ⟨k', hop⟩ := opSetRelations_panic run p e (rels.map (·.comp)) rels s.w hcore
+      exact hrej hop (fun hp => hrnd hp.2.1)
     by_cases hhas : ∀ r ∈ rels, r.comp ∈ en.rels.map (·.comp)
     case neg =>
       have hbad : ∃ (r : RelID), r ∈ rels ∧ targetOf s.w e.id r.comp = none := by
@@ -818,7 +824,7 @@ theorem step_setrel (run : ProbeRunner) {s : St} {fl : List Nat} (H : HInv s fl)
       obtain ⟨k', hop⟩ := opSetRelations_panic run p e (rels.map (·.comp)) rels s.w hcore
       exact hrej hop (fun hp => hv hp.2.2.2)
     have hok : SetRelOK s.ss en rels := ⟨hne, hrnd, hhas, hv⟩
-    obtain ⟨w', hop⟩ := opSetRelations_total run p H.tinv H.unlocked H.noObs h2 hnf ha hemp hhas'
+    obtain ⟨w', hop⟩ := opSetRelations_total run p H.tinv H.unlocked H.noObs h2 hnf ha hemp hrnd hhas'
       (H.targets_alive hv) hrel
     have post := opSetRelations_spec run p H.tinv H.unlocked H.noObs h2 hnf ha hemp hrnd hhas' hfew
       hent hop
